@@ -91,6 +91,7 @@ def pool(seed):
     P['pda'] += [h[1] for h in pdag.hostile_pdas() if h[0] in ('anbn', 'nonempty_stack_accept', 'eps_cycle_grow', 'replace_noop', 'order_sensitive_truncation')]
     P['cfg'] = [cfgg.random_grammar(rng, rng.randint(1, 4), rng.randint(2, 8), max_rhs=4, nt=2) for _ in range(3)]
     P['cfg'] += [h[1] for h in cfgg.hostile_grammars(rng) if h[0] in ('shared_rhs', 'cyclic_unit', 'nullable_start', 'shipped_cfg2')]
+    P['cfg'] += [cfgg.unit_cycle_grammar(rng, k) for k in (3, 4, 5, 6)]
     P['cnf'] = [cfgg.random_cnf(rng, rng.randint(2, 4), rng.randint(2, 6), nt=2) for _ in range(3)]
     P['rx'] = [rxg.random_tree(rng, d, 'ab', bias=b) for (d, b) in ((2, None), (4, 'star'), (5, 'unit'), (4, None), (6, 'star'))]
     P['rx'] = [t for t in P['rx'] if rx.size_iter(t) <= 40]
@@ -126,7 +127,7 @@ def add_twins(P):
 
 def random_pool(rng):
     P = {}
-    P['dfa'] = [fag.random_dfa(rng, rng.randint(1, 6), rng.randint(1, 3), names=rng.choice([None, fag.random_names(rng, 6)])) for _ in range(3)]
+    P['dfa'] = [fag.random_dfa(rng, rng.randint(2, 8), rng.randint(1, 3), names=rng.choice([None, fag.random_names(rng, 8)])) for _ in range(6)]
     P['dfa'] = [fa.make(R[0], R[1], R[2], R[3], R[4]) for R in P['dfa']]
     P['dfa_names'] = fag.random_dfa(rng, 3, 2, names=['start1', 'accept1', 'trap1'])
     P['nfa'] = [(fag.random_nfa(rng, rng.randint(1, 5), rng.randint(1, 2), eps_density=rng.choice([0.2, 0.8])), rng.choice(['', '_', 'ε']), rng.choice(adapt.NFA_KINDS)) for _ in range(3)]
@@ -445,6 +446,16 @@ def check_case(rec, case):
         rec.ev('repeat_call')
         if d1 is not None and d2 is not None and d1 != d2:
             rec.violation('repeat_call:%s' % e[0].split('#')[0].split('/')[0], 'calling %s again on equal arguments gives a different result' % e[0].split('#')[0], call=e[0], first=d1, second=d2)
+        old = GambaTools.enable_logging
+        try:
+            GambaTools.enable_logging = True
+            with common.captured():
+                d3 = run_call(rec, e, 'logging')
+        finally:
+            GambaTools.enable_logging = old
+        rec.ev('logging_toggle')
+        if d1 is not None and d3 is not None and d1 != d3:
+            rec.violation('logging:%s' % e[0].split('#')[0].split('/')[0], '%s gives a different result with logging switched on' % e[0].split('#')[0], call=e[0], quiet=d1, logging=d3)
         rec.hashes.add(h64(('random', case['rseed'], e[0])))
 
 
